@@ -232,8 +232,8 @@ def data_plane(chk, pid, thorough, seed, rnd):
     total = len(trans)
     if not thorough:
         rnd.shuffle(trans)
-        trans = trans[:1500]
-    sim = run_gen('sim_data', dict(consts(ALG3, 'Programs3Val', 10), MaxBump='3'), sim=(2000 if thorough else 300, 30))
+        trans = trans[:1000]
+    sim = run_gen('sim_data', dict(consts(ALG3, 'Programs3Val', 10), MaxBump='3'), sim=(2000 if thorough else 200, 30))
     jobs = []
     for s in trans + sim:
         evs = []
@@ -254,6 +254,38 @@ def data_plane(chk, pid, thorough, seed, rnd):
                 kinds = [e['ev'] for e in job['events']]
                 sig = 'data:' + (','.join(kinds[: line - 1]) if line - 1 <= len(kinds) else ','.join(kinds) + ',drain')
                 chk.add_violation(clause, sig, {'trace': tid, 'line': line, 'event': ev}, {'data_job': job, 'line': line})
+    # ---- the same property through the REAL data path: real worker code + real shelve store (task-only programs)
+    e2e = run_gen('gen_e2e', dict(consts(ALG3, 'Programs3Task', 10), MaxBump='2' if thorough else '1'))
+    e2e_total = len(e2e)
+    rnd.shuffle(e2e)
+    e2e = e2e[: 4000 if thorough else 120]
+    e2e += run_gen('sim_e2e', dict(consts(ALG3, 'Programs3Task', 10), MaxBump='3'), sim=(600 if thorough else 25, 30))
+    ejobs = []
+    for s in e2e:
+        evs = []
+        for e in s['h']:
+            e = dict(e)
+            if 'N' in e:
+                e['N'] = sorted(e['N'])
+            evs.append(e)
+        ejobs.append({'id': len(ejobs), 'desc': prog_to_desc(s['prog']), 'targets': TARGETS, 'events': evs, 'real_digest': len(ejobs) % 60 == 0})
+    efiles = chk.run_harness('e2e_h', ejobs)
+    chk.traces += len(ejobs)
+    erows = chk.validate('Sched_Data_Trace.tla', dict(spec='TraceSpec', constants=dict(consts(ALG3, None, 10**6, 10**6), MaxBump='1000000'), extra=['POSTCONDITION AllConsumed']), efiles, tags=('CLAUSE', 'CONSUMED'), name='Sched_Data_Trace_e2e')
+    ebyid = {j['id']: j for j in ejobs}
+    for _tag, tid, line, ev, bad in erows['CLAUSE']:
+        for clause in sorted(bad['set']):
+            if clause.startswith(pid + '.'):
+                job = ebyid[tid]
+                kinds = [e['ev'] for e in job['events']]
+                sig = 'e2e:' + (','.join(kinds[: line - 1]) if line - 1 <= len(kinds) else ','.join(kinds) + ',drain')
+                chk.add_violation(clause, sig, {'trace': tid, 'line': line, 'event': ev}, {'e2e_job': job, 'line': line})
+    nreal = 0
+    for fn in efiles:
+        with open(fn) as f:
+            for ln in f:
+                nreal += sum(1 for st in json.loads(ln)['steps'] if st['ev'] == 'ExecReply')
+    chk.counters.update(e2e_transitions=e2e_total, e2e_schedules=len(ejobs), e2e_real_worker_executions=nreal)
     nexec = 0
     for fn in files:
         with open(fn) as f:
@@ -279,8 +311,8 @@ def run(pid, tier, seed, replay=None):
     if replay:
         with open(replay) as f:
             rp = json.load(f)['replay']
-        if 'data_job' in rp:
-            files = chk.run_harness('data_h', [rp['data_job']])
+        if 'data_job' in rp or 'e2e_job' in rp:
+            files = chk.run_harness('data_h', [rp['data_job']]) if 'data_job' in rp else chk.run_harness('e2e_h', [rp['e2e_job']])
             rows = chk.validate('Sched_Data_Trace.tla', dict(spec='TraceSpec', constants=dict(consts(ALG3, None, 10**6, 10**6), MaxBump='1000000'), extra=['POSTCONDITION AllConsumed']), files, tags=('CLAUSE', 'CONSUMED'))
             for _tag, tid, line, ev, bad in rows['CLAUSE']:
                 for clause in sorted(bad['set']):
